@@ -35,7 +35,7 @@ PROPERTY_RULES: Dict[str, List[str]] = {
     "C11": ["DISP-1", "DISP-2", "DISP-3", "DISP-4", "ORD-6"],
     "C12": ["ORD-1", "ORD-2", "ORD-3", "ORD-5", "ORD-6", "TABLE-8"],
     "C13": ["QUERY-1", "QUERY-2", "QUERY-3", "QUERY-4", "QUERY-5", "QUERY-6", "QUERY-7", "STORE-12", "TOTAL-4", "TOTAL-6", "TOTAL-7", "QUERY-8", "ORD-6"],
-    "C14": ["STORE-3", "STORE-4", "STORE-5", "STORE-9", "CTRL-4", "CTRL-8", "NAME-3", "TOTAL-1", "TOTAL-2", "TOTAL-5", "STORE-11", "STORE-14", "STORE-16", "STORE-19"],
+    "C14": ["STORE-3", "STORE-4", "STORE-5", "STORE-9", "CTRL-4", "CTRL-8", "NAME-3", "TOTAL-1", "TOTAL-2", "TOTAL-5", "STORE-11", "STORE-14", "STORE-16", "STORE-19", "CTRL-1", "CTRL-2", "CTRL-9", "CTRL-10"],
     "C15": ["DISP-8", "DISP-9", "ORD-3", "ORD-4", "TOTAL-6", "TOTAL-8", "ATTR-1", "CTRL-12", "DISP-11", "ORD-6", "DISP-12", "CTRL-14"],
     "C16": ["ITER-1", "TOTAL-6", "STORE-6", "ORD-6"],
     "C17": ["DISP-7", "DISP-10", "ORD-5", "TOTAL-6", "TOTAL-9", "USE-1", "ATTR-1", "INIT-1", "CTRL-12", "ORD-6"],
